@@ -580,7 +580,7 @@ func rpmEvrCmp(a, b verObs) int {
 func genVersions(rng *rand.Rand, n int) []verTuple {
 	var out []verTuple
 	nums := []string{"0", "1", "2", "9", "10", "11", "123"}
-	preIds := []string{"rc1", "rc", "1", "0", "beta", "alpha-1", "x-y", "rc10", "rc9", "2a", "a2", "dev", "RC1", "Beta", "SNAPSHOT"}
+	preIds := []string{"rc1", "rc", "1", "0", "beta", "alpha-1", "x-y", "rc10", "rc9", "2a", "a2", "dev", "RC1", "Beta", "SNAPSHOT", "4-gdeadbee", "12-g0a1b2c3", "4", "0-1"}
 	metaIds := []string{"git", "5", "abc123", "b7", "2024", "001", "p1", "cvs2", "Build", "git-0a1b"}
 	ident := func(pool []string, k int) string {
 		var p []string
